@@ -54,16 +54,24 @@ func run(col *core.Collector, prop, tier, variant string, seed uint64, shard, ns
 	switch prop {
 	case "C01", "C03", "C07", "C10", "C11", "C12", "C13":
 		seq.RunProperty(col, prop, tier, seed, shard, nshards, replayDir)
-	case "C20":
+	case "C20", "C04", "C05", "C06":
 		if variant == "plain" {
 			seq.RunProperty(col, prop, tier, seed, shard, nshards, replayDir)
 		}
 		conc.Run(col, prop, tier, variant, seed, shard, nshards, replayDir, out)
+	case "C15":
+		conc.RunC15(col, tier, variant, seed, shard, nshards, replayDir, out)
+	case "C16":
+		conc.RunC16(col, tier, variant, seed, shard, nshards, replayDir, out)
+	case "C17":
+		conc.RunC17(col, tier, variant, seed, shard, nshards, replayDir, out)
+	case "C18":
+		conc.RunC18(col, tier, variant, seed, shard, nshards, replayDir, out)
 	case "C08":
 		conc.RunC08(col, tier, variant, seed, shard, nshards, replayDir, out)
 	case "C09":
 		conc.RunC09(col, tier, variant, seed, shard, nshards, replayDir, out)
-	case "C02", "C04", "C05", "C06", "C14":
+	case "C02", "C14":
 		conc.Run(col, prop, tier, variant, seed, shard, nshards, replayDir, out)
 	case "C19":
 		seq.RunPersist(col, tier, seed, shard, nshards, replayDir)
